@@ -80,6 +80,12 @@ func (ac *acceptCtx) authFact(f guard.Fact) (string, bool) {
 					return "bytes.Compare == 0", true
 				}
 			}
+			// hand-written constant-time comparison: OR of XORs over all bytes == 0
+			if k, isC := guard.ConstInt(pr[1]); isC && k == 0 && isXorAccumulator(pr[0]) {
+				if n, full := accumulatorCoversOperand(pr[0]); full {
+					return fmt.Sprintf("OR-of-XORs accumulator over all %d bytes == 0", n), true
+				}
+			}
 		}
 	}
 	if op, x, y, ok := guard.Cmp(f); ok && op == token.NEQ {
@@ -216,6 +222,71 @@ func newAcceptCtx(c *Ctx) *acceptCtx {
 		}
 	}
 	return ac
+}
+
+// accumulatorCoversOperand: the accumulation loop runs i = 0 .. K-1 with K the
+// full length of a compared operand.
+func accumulatorCoversOperand(v ssa.Value) (int64, bool) {
+	phi, ok := guard.Strip(v).(*ssa.Phi)
+	if !ok {
+		return 0, false
+	}
+	var header *ssa.BasicBlock
+	for _, b := range phi.Parent().Blocks {
+		if inCycle(b) && natLoop(b)[phi.Block()] && b.Dominates(phi.Block()) {
+			header = b
+		}
+	}
+	if header == nil || len(header.Instrs) == 0 {
+		return 0, false
+	}
+	iff, ok := header.Instrs[len(header.Instrs)-1].(*ssa.If)
+	if !ok {
+		return 0, false
+	}
+	cmp, ok := iff.Cond.(*ssa.BinOp)
+	if !ok || cmp.Op != token.LSS {
+		return 0, false
+	}
+	k, isK := guard.ConstInt(cmp.Y)
+	idx, isPhi := guard.Strip(cmp.X).(*ssa.Phi)
+	if !isK || !isPhi {
+		return 0, false
+	}
+	starts0 := false
+	for _, e := range idx.Edges {
+		if c0, is0 := guard.ConstInt(e); is0 && c0 == 0 {
+			starts0 = true
+		}
+	}
+	if !starts0 {
+		return 0, false
+	}
+	// the XORed elements are X[i], Y[i] with len(X) == K or len(Y) == K
+	full := false
+	for _, e := range phi.Edges {
+		or, isOr := guard.Strip(e).(*ssa.BinOp)
+		if !isOr {
+			continue
+		}
+		for _, side := range []ssa.Value{or.X, or.Y} {
+			xo, isX := guard.Strip(side).(*ssa.BinOp)
+			if !isX || xo.Op != token.XOR {
+				continue
+			}
+			for _, el := range []ssa.Value{xo.X, xo.Y} {
+				if u, isU := guard.Strip(el).(*ssa.UnOp); isU {
+					if ia, isIA := u.X.(*ssa.IndexAddr); isIA && guard.Strip(ia.Index) == ssa.Value(idx) {
+						cx := bounds.NewCtx(phi.Parent())
+						if cx.LenOf(ia.X).String() == fmt.Sprint(k) {
+							full = true
+						}
+					}
+				}
+			}
+		}
+	}
+	return k, full
 }
 
 // isXorAccumulator: v is the loop-carried OR of XORs of two byte sequences
